@@ -221,7 +221,7 @@ func lintSection(val int) m {
 	case 10:
 		return m{"use": list("STYLE_DEFAULT"), "ignore": list("q")}
 	case 11:
-		return m{"use": list("MINIMAL", "ENUM_PASCAL_CASE", "SERVICE_SUFFIX"), "except": list("PACKAGE_DIRECTORY_MATCH")}
+		return m{"use": list("FILE_LAYOUT", "PACKAGE_AFFINITY", "ENUM_PASCAL_CASE", "SERVICE_SUFFIX", "MESSAGE_PASCAL_CASE"), "except": list("PACKAGE_DIRECTORY_MATCH")}
 	case 12:
 		return m{"use": list("DEFAULT"), "except": list("FIELD_NO_DESCRIPTOR"), "allow_comment_ignores": true, "ignore_only": m{"ENUM_VALUE_PREFIX": list("p")}}
 	}
@@ -593,11 +593,6 @@ func breakingGroup(ctx context.Context, newGroup, oldGroup []*modView) checkResu
 		}
 	}
 	return res
-}
-
-// normaliseErr removes user data from an error so that it can be part of a signature.
-func normaliseErr(s string) string {
-	return shorten(s)
 }
 
 // ---------------------------------------------------------------------------------------------
